@@ -16,6 +16,12 @@ LIBS = [
      "sub.mo": "within L.Units; model U Real u; equation u = scale; end U;",
      "m2.mo": "within L; model M2 extends M1; Real b; equation b = a + c0; end M2;",
      "_models": ["L.M1", "L.M2", "L.Units.U"]},
+    # a class that declares both an unqualified and a plain qualified import, in its own file; a model of another file uses the latter
+    {"consts.mo": "package Lib package Consts constant Real g = 9.81; constant Real rho = 1000; end Consts; package Aux constant Real eps = 0.5; end Aux; end Lib;",
+     "models.mo": "within Lib; package Models import Lib.Aux.*; import Lib.Consts; end Models;",
+     "tank.mo": "within Lib.Models; model Tank Real p; Real q; equation p = Consts.rho * Consts.g; q = eps; end Tank;",
+     "pipe.mo": "within Lib.Models; model Pipe Real f; equation f = 2 * Consts.g; end Pipe;",
+     "_models": ["Lib.Models.Tank", "Lib.Models.Pipe"]},
     {"top.mo": "class Lib constant Real w = 2; model T Real t; equation t = w; end T; end Lib;",
      "in.mo": "within Lib; model S Real s; equation s = 3 * w; end S;",
      "_models": ["Lib.T", "Lib.S"]},
@@ -92,7 +98,7 @@ def main():
     perms = sum(len(list(itertools.permutations([k for k in l if not k.startswith("_")]))) for l in LIBS)
     if payload.get("mode") == "bounded":
         print(json.dumps({"performed": True, "cases": perms, "distinct_nontrivial": perms, "failures": failures,
-                          "rule": "three real libraries (package constants, nested packages, imports, extends across files, a non-package top class) split into 2-4 files with within clauses: parsed and merged in every permutation, every model flattened and compared with the first order; plus transfer_model over the directory",
+                          "rule": "four real libraries (package constants, nested packages, qualified and unqualified imports declared together, extends across files, a non-package top class) split into 2-4 files with within clauses: parsed and merged in every permutation, every model flattened and compared with the first order; plus transfer_model over the directory",
                           "bound": "%d permutations over %d libraries" % (perms, len(LIBS))}))
     else:
         f = failures[0] if failures else None
